@@ -72,6 +72,11 @@ func genBaseH(t *rapid.T, mode string) (*model.G, []byte, []refwkb.Field, []int)
 
 // genBaseM: a reference encoding; in a third of them members use another byte
 // order than their parents (each geometry has its own byte-order mark).
+// SRIDsmall draws a member SRID.
+func SRIDsmall(t *rapid.T) int {
+	return rapid.SampledFrom([]int{0, 4326, 3857, 1, 27700, 4269}).Draw(t, "msrid")
+}
+
 func genBaseM(t *rapid.T, mode string) (*model.G, []byte, []refwkb.Field, []int, []bool) {
 	o := gen.TreeOpts{
 		Layouts: gen.Layouts4, Floats: gen.SmallInt | gen.CanonNaN | gen.Infs, MaxDepth: 3, MaxParts: 3, MaxPts: 4,
@@ -84,6 +89,16 @@ func genBaseM(t *rapid.T, mode string) (*model.G, []byte, []refwkb.Field, []int,
 		o.NoEmptyPoint = true
 	}
 	g := gen.Tree(t, o)
+	if mode == "ewkb" {
+		// members of collections carry SRIDs of their own, at every depth
+		first := true
+		g.Walk(func(x *model.G) {
+			if !first && rapid.Bool().Draw(t, "membersrid") {
+				x.SRID = SRIDsmall(t)
+			}
+			first = false
+		})
+	}
 	var flip func(int) bool
 	if rapid.IntRange(0, 2).Draw(t, "mixedorder") == 0 {
 		mask := rapid.Uint64().Draw(t, "flipmask")
